@@ -440,7 +440,37 @@ func runC16(c *core.Ctx) {
 	if readdir == nil {
 		c.Undecided("R16.2", "fd_readdir", 0, "no WASI function calls DirentCache.Read")
 	} else {
-		// R16.4: the value written through WriteUint32Le to the result pointer depends on the 3rd result of the sizing helper
+		// R16.4: the value written through WriteUint32Le to the result pointer depends on the 3rd result of the sizing helper;
+		// the function itself, or the step of it that writes the result (one level)
+		{
+			hasBoth := func(fn *ssa.Function) bool {
+				t, w := false, false
+				for _, b := range fn.Blocks {
+					for _, in := range b.Instrs {
+						if ex, ok := in.(*ssa.Extract); ok && ex.Index == 2 {
+							if call, ok := ex.Tuple.(*ssa.Call); ok && call.Common().StaticCallee() != nil && call.Common().StaticCallee().Signature.Results().Len() == 3 {
+								t = true
+							}
+						}
+						if call, ok := in.(*ssa.Call); ok && call.Common().IsInvoke() && call.Common().Method.Name() == "WriteUint32Le" {
+							w = true
+						}
+					}
+				}
+				return t && w
+			}
+			if !hasBoth(readdir) {
+				for _, b := range readdir.Blocks {
+					for _, in := range b.Instrs {
+						if call, ok := in.(*ssa.Call); ok {
+							if sc := call.Common().StaticCallee(); sc != nil && sc.Blocks != nil && sc.Pkg == readdir.Pkg && hasBoth(sc) {
+								readdir = sc
+							}
+						}
+					}
+				}
+			}
+		}
 		var trunc ssa.Value
 		for _, b := range readdir.Blocks {
 			for _, in := range b.Instrs {
